@@ -12,8 +12,10 @@ def related(pid, patch, limit=2):
         p = json.loads(l)
         files = set(p["anchors"].get("files", []))
         score[p["id"]] = len(files & touched)
-    ids = [pid] + [i for i, s in sorted(score.items(), key=lambda kv: (-kv[1], kv[0])) if s > 0 and i != pid]
-    return ids[:limit], sorted(touched)
+    cheap = {"C03", "C05", "C08", "C09", "C14", "C16", "C17", "C20"}   # < 60 s on an idle machine
+    rel = [i for i, s in sorted(score.items(), key=lambda kv: (-kv[1], kv[0])) if s > 0 and i != pid]
+    ids = [pid] + [i for i in rel if i in cheap][:limit - 1]
+    return ids, sorted(touched)
 
 def main():
     pid, k = sys.argv[1], sys.argv[2]
